@@ -158,9 +158,19 @@ def is_filter_empty(filter_like: Filter) -> bool:
   if isinstance(filter_like, bool):
     return not filter_like
   if isinstance(filter_like, DenyList):
-    # if any arbitrary collection is in the denylist it matches everything so
-    # the filter is empty. This is checked with a stub.
-    return in_filter(filter_like.deny, '__flax_internal_stub__')
+    # a DenyList is empty iff its deny filter matches every collection.
+    deny = filter_like.deny
+    if isinstance(deny, DenyList):
+      # double negation: DenyList(DenyList(x)) matches exactly what x matches.
+      return is_filter_empty(deny.deny)
+    if isinstance(deny, str):
+      return False
+    if isinstance(deny, typing.Collection):
+      # a finite set of names never covers every collection.
+      return False
+    if isinstance(deny, bool):
+      return deny
+    raise errors.InvalidFilterError(deny)
   raise errors.InvalidFilterError(filter_like)
 
 
